@@ -141,31 +141,37 @@ def runScript (body : String) : String :=
   | some parts =>
     runScriptWith ifaceM VariableSet.new parts ++ "\t=" ++ runScriptWith ifaceS SSet.new parts
 
-/-! ### `rop K`: a path of a built-in outside the anchors (`cd`, `getopts`) or an assignment that writes a
-    read-only variable with a special name.  (setup after `init`, the operations the path attempts — all
-    `get_or_new(name, Global)` + assign / unset —, what is reported when one of them is refused, the
-    names observed).  The statuses are those of the built-ins (`cd` 1, `getopts` 2, an assignment error
-    ends the shell with 2); what the model contributes is that every refused operation leaves the
-    variable as it was and that the others are still performed. -/
-def ropTable : List (String × List Op × List Op × String × List Name) :=
+/-! ### `rop K`: `cd`, `getopts` and an assignment writing a read-only variable with a special name, on
+    the transcriptions of Script.lean (`cdAssign`, `getoptsReportOps`).  After `init`, a setup, then the
+    path; the line shows the status the built-in reports (`cd`: `cdStatus`; `getopts`: 2 when its report
+    is cut short by a refusal; an assignment error ends the shell with 2) and the names observed. -/
+inductive RopPath where
+  | cd (newPwd : String)
+  | getopts (name value : String) (optarg : Option String) (optind : String)
+  | assign (n : Name) (v : String)
+
+def ropTable : List (String × List Op × RopPath × List Name) :=
   let ro (n : Name) := Op.readonly n .global 1
   let as (n : Name) (v : String) := Op.assign n .global (.scalar v) none
-  [("cdpwd", [as "PWD" "0", .export "PWD" .global true, ro "PWD"], [as "PWD" "/"], "r1", ["PWD"]),
-   ("cdold", [as "OLDPWD" "0", ro "OLDPWD"], [as "OLDPWD" "0"], "r1", ["OLDPWD"]),
-   ("optind", [ro "OPTIND"], [as "o" "a", as "OPTIND" "2"], "r2", ["OPTIND", "o"]),
-   ("optarg", [as "OPTARG" "0", ro "OPTARG"], [as "o" "a", as "OPTARG" "v"], "r2", ["OPTARG", "o"]),
-   ("optargu", [as "OPTARG" "0", ro "OPTARG"], [as "o" "a", .unset "OPTARG" .global], "r2", ["OPTARG", "o"]),
-   ("linenoas", [ro "LINENO"], [as "LINENO" "5"], "x2", ["LINENO"])]
+  [("cdpwd", [as "PWD" "0", .export "PWD" .global true, ro "PWD"], .cd "/", ["PWD", "OLDPWD"]),
+   ("cdold", [as "OLDPWD" "0", ro "OLDPWD"], .cd "/", ["OLDPWD", "PWD"]),
+   ("optind", [ro "OPTIND"], .getopts "o" "a" none "2", ["OPTIND", "o", "OPTARG"]),
+   ("optarg", [as "OPTARG" "0", ro "OPTARG"], .getopts "o" "a" (some "v") "3", ["OPTARG", "o", "OPTIND"]),
+   ("optargu", [as "OPTARG" "0", ro "OPTARG"], .getopts "o" "a" none "2", ["OPTARG", "o", "OPTIND"]),
+   ("linenoas", [ro "LINENO"], .assign "LINENO" "5", ["LINENO"])]
 
 def runRopWith {σ} (I : Iface σ) (s0 : σ) (k : String) : String :=
   match ropTable.find? (·.1 = k) with
   | none => "bad-case"
-  | some (_, setup, attempt, onRefusal, names) =>
+  | some (_, setup, path, names) =>
     let s1 := (setup.foldl (fun s op => (I.step s op).1) s0)
-    let r := foldErrors (fun s op => match I.step s op with
-      | (s', .readOnly _) => (s', true)
-      | (s', _) => (s', false)) attempt (s1, 0)
-    " | ".intercalate ((if r.2 = 0 then "r0" else onRefusal) :: names.map fun n => s!"{n}={showV (I.get r.1 n)}")
+    let (s2, line) : σ × String := match path with
+      | .cd newPwd => let r := cdAssign I s1 newPwd; (r.1, s!"r{cdStatus r.2}")
+      | .getopts name value optarg optind =>
+        let r := runOps I s1 (getoptsReportOps name value optarg optind); (r.1, if r.2 then "r2" else "r0")
+      | .assign n v =>
+        let r := runOps I s1 [.assign n .global (.scalar v) none]; (r.1, if r.2 then "x2" else "r0")
+    " | ".intercalate (line :: names.map fun n => s!"{n}={showV (I.get s2 n)}")
 
 def runRop (k : String) : String :=
   runRopWith ifaceM VariableSet.new.init k ++ "\t=" ++ runRopWith ifaceS SSet.new.init k
